@@ -533,7 +533,7 @@ func runC01(id string) int {
 	nRand := 3000
 	depth := 2
 	if *tier == "thorough" {
-		nRand = 30000
+		nRand = 200000
 		depth = 3
 	}
 	for i := 0; i < nRand; i++ {
@@ -564,7 +564,7 @@ func runC01(id string) int {
 	}
 	nBase := 400
 	if *tier == "thorough" {
-		nBase = 4000
+		nBase = 20000
 	}
 	for i := 0; i < nBase; i++ {
 		g := prng.New(r.SeedV, "C01.mutbase", i)
